@@ -34,7 +34,9 @@ CLONE_FEAT = dict(p_let=0.9, p_aux_let=1.0, p_neg=0.5, nframes=(2, 5), ngo=(1, 2
 def gated_condaux_case(rng):
     """A conditional auxiliary whose condition is an update / change condition and whose first frame has an entry guard that
     opens at a planned tick: while the guard refuses the start, the attempt must leave the mark alone (no transit action of a
-    refused attempt runs), so the start happens as soon as the guard opens -- without a new write."""
+    refused attempt runs), so the start happens as soon as the guard opens -- without a new write.  Some of the auxes
+    complete in the run that starts them (`done me`): the taken start has reset the mark, so the next start needs a new
+    write."""
     T = 14
     kind = rng.choice(["updated", "changed"])
     writer = rng.choice(["front", "back"])
@@ -42,6 +44,14 @@ def gated_condaux_case(rng):
     plan = sorted(set(rng.randint(1, T - 3) for _ in range(rng.randint(1, 3))))
     vals = [rng.choice([1, 2, 1, 0]) for _ in plan]
     infr = rng.choice(["", " in frame", " in frame A"])
+    r2 = random.Random(repr((kind, writer, gate, plan, vals, infr)))      # (the cases above stay what they were)
+    oneshot = r2.random() < 0.4
+    if oneshot:
+        if r2.random() < 0.6:
+            gate = 0
+        more = sorted(set(plan) | set(r2.randint(1, T - 3) for _ in range(r2.randint(0, 2))))
+        vals = [vals[plan.index(t)] if t in plan else r2.choice([1, 2, 3, 0]) for t in more]
+        plan = more
     L = ["house h", "", "  init .w with value 0", "  init .g with value 0", "",
          "  framer gk be active in front", "    frame g0", "      recur", "      inc .g with 1", "",
          "  framer drv be active in %s" % writer]
@@ -55,9 +65,12 @@ def gated_condaux_case(rng):
     L += ["    frame dl", "      put %d into .w" % vals[-1], "      go next if recurred >= %d" % max(1, T - prev), "    frame dfin", "      bid stop all", ""]
     L += ["  framer m be active", "    frame A", '      do vf rec with tag "m.A.enter" at enter',
           "      aux ax if .w is %s%s" % (kind, infr), "",
-          "  framer ax be aux", "    frame x0", "      let me if .g >= %d" % gate, '      do vf rec with tag "ax.x0.enter" at enter', ""]
+          "  framer ax be aux", "    frame x0", "      let me if .g >= %d" % gate, '      do vf rec with tag "ax.x0.enter" at enter']
+    if oneshot:
+        L.append("      done me")
+    L.append("")
     return {"text": "\n".join(L) + "\n", "kind": kind, "writer": writer, "gate": gate, "plan": list(zip(plan, vals)), "T": T,
-            "inframe": bool(infr)}
+            "inframe": bool(infr), "oneshot": oneshot}
 
 
 def gated_condaux_eval(case):
@@ -69,23 +82,32 @@ def gated_condaux_eval(case):
         return ("raised", repr(res.exc))
     got = [e["tick"] for e in res.trace if e["tag"] == "ax.x0.enter"]
     writes = dict(case["plan"])
-    value, upd, exp, refused = 0, None, None, 0
+    value, upd, refused = 0, None, 0
+    # the mark: with `in frame` it is set when A is entered (tick 0); without it there is no mark before the first taken
+    # start (any update counts / `changed` is true before the first snapshot); a taken start resets it (transit action)
+    mark = {"tick": 0, "how": "entry", "snap": 0} if case["inframe"] else None
+    exp, running, after_refusal = [], False, False
     for t in range(case["T"] + 1):
         if case["writer"] == "front" and t in writes:
             value, upd = writes[t], t
-        if t >= 1 and exp is None:
-            # with `in frame` the mark is set when A is entered (tick 0); without it there is no mark before the first start
-            # (any update counts / `changed` is true before the first snapshot)
-            holds = (upd is not None) if case["kind"] == "updated" else (value != 0 if case["inframe"] else True)
+        if t >= 1 and not running:
+            if case["kind"] == "updated":
+                holds = upd is not None and (mark is None or upd > mark["tick"] or (upd == mark["tick"] and mark["how"] == "entry"))
+            else:
+                holds = mark is None or value != mark["snap"]
             if holds:
                 if t + 1 >= case["gate"]:
-                    exp = t
+                    exp.append(t)
+                    if refused:
+                        after_refusal = True
+                    mark = {"tick": t, "how": "transit", "snap": value}
+                    running = not case["oneshot"]
                 else:
                     refused += 1
         if case["writer"] == "back" and t in writes:
             value, upd = writes[t], t
-    return ("ok" if got == ([exp] if exp is not None else []) else "differs", {"observed_start_ticks": got, "expected_start_tick": exp},
-            refused, exp)
+    return ("ok" if got == exp else "differs", {"observed_start_ticks": got, "expected_start_ticks": exp}, refused,
+            exp[0] if after_refusal else None, len(exp))
 
 
 def worker(ctx, job):
@@ -116,6 +138,9 @@ def worker(ctx, job):
         ctx.hit("gated_condaux_refused_attempts", r[2])
         if r[2] and r[3] is not None:
             ctx.hit("gated_condaux_started_after_refusals")
+        if case["oneshot"]:
+            ctx.hit("oneshot_condaux_histories")
+            ctx.hit("oneshot_condaux_starts", r[4])
         ctx.case(case["text"], nontrivial=bool(r[2]), sample={"program": case["text"], "start": r[1]} if r[2] and seed % 16 == 0 else None)
         ctx.check(r[0] == "ok", "gated-condaux/refused-start-changed-a-later-start",
                   "conditional aux guarded by `%s`, entry guard opening at tick %d: %s" % (case["kind"], case["gate"] - 1, r[1]),
